@@ -257,11 +257,25 @@ def rule_panic(check):
                 key = "%s/%s/mir-%s" % (R, T.short_def(f.def_path), t["assert_kind"])
                 if t["assert_kind"] == "Overflow" and "Add" in t["msg"] and "const 1_" in t["msg"]:
                     check.ok(R, key, where, "G9: counter/column + 1 (assumption: fewer than 2^32 increments)")
+                elif t["assert_kind"] == "Overflow" and "Sub" in t["msg"] and _span_len_sub(f, t["sp"]):
+                    check.ok(R, key, where, "G13: span.hi - span.lo of one span (hi >= lo is an invariant of swc spans)")
                 elif t["assert_kind"] == "BoundsCheck" and where in hir_lines:
                     check.ok(R, key, where, "bounds check of an index obligation handled above")
                 else:
                     check.bad(R, key, where, "arithmetic/bounds assert %s is not covered by a guard rule" % t["msg"][:80])
     check.note("PANIC: %d obligations in crate-written bodies, %d MIR asserts; %d macro-generated functions (wasm_bindgen/serde derives) are trusted base" % (n_ob, n_mir, n_gen))
+
+
+def _span_len_sub(f, sp):
+    """the Sub at this source span is `<p>.hi.0 - <p>.lo.0` for one span place p"""
+    if f.body is None:
+        return False
+    for n in f.nodes():
+        if n.get("k") == "Binary" and n.get("op") == "Sub" and hir.parse_span(n["sp"])[:3] == hir.parse_span(sp)[:3]:
+            l, r = hir.place(n["l"]), hir.place(n["r"])
+            if l and r and l.endswith(".hi.0") and r.endswith(".lo.0") and l[: -len(".hi.0")] == r[: -len(".lo.0")]:
+                return True
+    return False
 
 
 def _role(f, n):
